@@ -233,12 +233,20 @@ class TimeLimitExceededError(Exception):
     pass
 
 
+def _task_ids():
+    # Clients keep the ids of the tasks they submitted across restarts of the
+    # workers (in the tracked-jobs file). Ids must therefore not repeat when the
+    # pool is restarted, or a target would be shown with the state of another
+    # target's task: start counting at an offset derived from the start time.
+    return itertools.count(int(time.time() * 1000) * 1000)
+
+
 @attrs.define
 class Scheduler:
     working_dir: Path = attrs.field(converter=Path)
     max_cores: int = attrs.field(default=multiprocessing.cpu_count())
 
-    tid_generator: Generator = attrs.field(factory=itertools.count)
+    tid_generator: Generator = attrs.field(factory=_task_ids)
     events: asyncio.Queue = attrs.field(factory=asyncio.Queue)
     task_states: dict = attrs.field(factory=dict)
     tasks: dict = attrs.field(factory=dict)
@@ -267,7 +275,9 @@ class Scheduler:
         return tid
 
     async def cancel_task(self, tid):
-        if self.task_states[tid] in (LocalStatus.SUBMITTED, LocalStatus.RUNNING):
+        # An id that this pool never issued (e.g. a task of a pool that has been
+        # restarted since) is simply not cancellable.
+        if self.task_states.get(tid) in (LocalStatus.SUBMITTED, LocalStatus.RUNNING):
             worker_task = self.tasks[tid]
             worker_task.cancel()
             self.task_states[tid] = LocalStatus.CANCELLED
